@@ -454,6 +454,8 @@ type TokSpec struct {
 	TamperStr string // for Tamper "withstr": the resource written into every capability after signing
 	// extra dangling proof links (no block anywhere)
 	Dangling int
+	// issued with NO expiration option at all: the library default (now + 30 s) applies; Exp is filled from the token
+	DefaultExp bool
 }
 
 type Built struct {
@@ -567,7 +569,10 @@ func (w *World) Build() error {
 			caps = append(caps, ucan.NewCapability(c.Can, c.With, c.Nb))
 		}
 		opts := []delegation.Option{delegation.WithProof(prfs...)}
-		if sp.Exp == nil {
+		issuedFrom := int(time.Now().Unix())
+		if sp.DefaultExp {
+			// no expiration option: ucan.Issue defaults to 30 s from now
+		} else if sp.Exp == nil {
 			opts = append(opts, delegation.WithNoExpiration())
 		} else {
 			opts = append(opts, delegation.WithExpiration(*sp.Exp))
@@ -581,6 +586,22 @@ func (w *World) Build() error {
 		d, err := delegation.Delegate(sg, sp.Audience.DID, caps, opts...)
 		if err != nil {
 			return fmt.Errorf("world %d: issuing %s: %v", w.ID, sp.Name, err)
+		}
+		if sp.DefaultExp {
+			// gen_cov.go: the default expiration is 30 s after the second of issuance
+			if mm := covDefaultExp(d, issuedFrom, int(time.Now().Unix())); mm != "" && curStats != nil {
+				curStats.AccessorMismatches = append(curStats.AccessorMismatches, fmt.Sprintf("world %d token %s: %s", w.ID, sp.Name, mm))
+			}
+			if e := d.Expiration(); e != nil {
+				ev := *e
+				sp.Exp = &ev
+			}
+		} else if d2, mm := covIssueVariants(w, sp, sg, opts, d); mm != "" && curStats != nil {
+			// gen_cov.go: the same token issued through CapabilityParser.Delegate / Invoke, invocation.Invoke and read with
+			// invocation.NewInvocation is the same token
+			curStats.AccessorMismatches = append(curStats.AccessorMismatches, fmt.Sprintf("world %d token %s: %s", w.ID, sp.Name, mm))
+		} else if d2 != nil {
+			d = d2 // every other eligible token of the world IS the one the capability helper issued
 		}
 		if mm := accessorMismatch(d, sp, sg, len(prfs)); mm != "" && curStats != nil && len(curStats.AccessorMismatches) < 20 {
 			curStats.AccessorMismatches = append(curStats.AccessorMismatches, fmt.Sprintf("world %d token %s: %s", w.ID, sp.Name, mm))
@@ -916,6 +937,19 @@ func (w *World) parser(obs *Obs) validator.PrincipalParserFunc {
 		if err != nil && w.Ctx.ParserKind == "ed+rsa" {
 			v, err = rsaverifier.Parse(str)
 		}
+		if err != nil && w.Ctx.ParserKind == "ed+web" && strings.HasPrefix(str, "did:web:") {
+			// a parser that also knows did:web principals: it answers with a verifier that carries the did:web DID
+			names := make([]string, 0, len(w.Cast.byName))
+			for n := range w.Cast.byName {
+				names = append(names, n)
+			}
+			sort.Strings(names)
+			for _, n := range names {
+				if p := w.Cast.byName[n]; p.DID.String() == str && p.Real != nil {
+					return countingVerifier{p.Real, p.KeyID, obs}, nil
+				}
+			}
+		}
 		if err != nil {
 			return nil, err
 		}
@@ -1086,6 +1120,7 @@ func (w *World) Run() *Obs {
 					obs.ErrRevoked = true
 				}
 			}
+			covRenderError(w, x) // gen_cov.go: the error a server would put into the receipt can be rendered (small worlds)
 		}
 	}); p != nil {
 		obs.Panic = fmt.Sprint(p)
@@ -1284,7 +1319,11 @@ func (w *World) Coq(obs *Obs) string {
 	for _, s := range w.allDIDStrings() {
 		v, err := parse(s)
 		if err == nil {
-			principals = append(principals, fmt.Sprintf("(%s, %s)", hxs(s), w.coqVerifier(w.Cast.keyIDs[v.DID().String()], sigCodeOf(v), v.DID())))
+			kid := w.Cast.keyIDs[v.DID().String()]
+			if cv, ok := v.(countingVerifier); ok {
+				kid = cv.keyID
+			}
+			principals = append(principals, fmt.Sprintf("(%s, %s)", hxs(s), w.coqVerifier(kid, sigCodeOf(v), v.DID())))
 		}
 	}
 	var keyres []string
